@@ -272,3 +272,39 @@ func Conf(kind StoreKind, root string, p Policy) config.Config {
 func New(c config.Config) *olareg.Server { return olareg.New(c) }
 
 func RemoveAll(p string) { _ = os.RemoveAll(p) }
+
+// DoStream runs one request whose body is read from body as it comes (unknown length).  If body is an io.Closer it
+// is closed once the handler has returned, so that a writer blocked on a pipe is released.
+func DoStream(h http.Handler, method, url string, hdr map[string]string, body io.Reader) (rs Resp) {
+	req, err := http.NewRequest(method, url, onlyReader{body})
+	if err != nil {
+		return Resp{Status: 598, Panic: "bad request spec: " + err.Error()}
+	}
+	req.ContentLength = -1
+	req.RemoteAddr = "192.0.2.1:1234"
+	req.RequestURI = url
+	for k, v := range hdr {
+		req.Header.Set(k, v)
+	}
+	w := httptest.NewRecorder()
+	func() {
+		defer func() {
+			if p := recover(); p != nil {
+				rs.Panic = fmt.Sprintf("%v\n%s", p, debug.Stack())
+			}
+		}()
+		h.ServeHTTP(w, req)
+	}()
+	if c, ok := body.(io.Closer); ok {
+		_ = c.Close()
+	}
+	if rs.Panic != "" {
+		rs.Status = 599
+		rs.H = http.Header{}
+		return rs
+	}
+	res := w.Result()
+	b, _ := io.ReadAll(res.Body)
+	rs.Status, rs.H, rs.Body = res.StatusCode, res.Header, b
+	return rs
+}
